@@ -35,6 +35,30 @@ def doc_cases(ctx, bases):
         small = name not in ('full', 'scopes')
         ss = F.enumerate_sites(root, token_cap=None if small else 6)
         sites[name] = ss
+        # names that are defined, but as something else (other role of the scope, other library, a name/sid/symbol)
+        wk = F.wrongkind_sites(root)
+        if quick and len(wk) > 15:
+            wk = rng.sample(wk, 15)
+        for f in wk:
+            cases.append({'base': name, 'faults': [f]})
+            stats['wrongkind'] = stats.get('wrongkind', 0) + 1
+        # offending text with characters special to formatting / quoting / encoding
+        sp = F.with_special_payloads(ss)
+        if quick and len(sp) > 24:
+            sp = rng.sample(sp, 24)
+        for f in sp:
+            cases.append({'base': name, 'faults': [f]})
+            stats['special_payloads'] = stats.get('special_payloads', 0) + 1
+        # an early, ignorable fault plus a LATE dangling reference (default scene, instances of scene nodes)
+        late = [f for f in ss if f['kind'] == 'dangling' and f.get('tag') in ('instance_visual_scene', 'instance_geometry',
+                                                                              'instance_light', 'instance_camera', 'instance_controller')]
+        early = [f for f in ss if f['kind'] in ('nonnum', 'dangling', 'emptytext') and f.get('tag') not in
+                 ('instance_visual_scene', 'instance_node')]
+        for b in late[:6]:
+            for a in rng.sample(early, min(3 if quick else 12, len(early))):
+                if a.get('elem') != b.get('elem'):
+                    cases.append({'base': name, 'faults': [a, b]})
+                    stats['early_late_pairs'] = stats.get('early_late_pairs', 0) + 1
         # a fault in front of an instance_node that never resolves, inside one top-level node
         dp = F.deferral_pairs(root, ss)
         if quick and len(dp) > 25:
@@ -46,8 +70,7 @@ def doc_cases(ctx, bases):
         xs = F.extref_sites(root, rng, None if (small or not quick) else 1)
         if quick and not small:
             xs = [f for f in xs if not f.get('empty')] + [f for f in xs if f.get('empty')][:10]
-            if name == 'full':
-                xs = rng.sample(xs, min(40, len(xs)))
+            xs = rng.sample(xs, min(30, len(xs)))
         for f in xs:
             cases.append({'base': name, 'faults': [f]})
             stats['extref'] = stats.get('extref', 0) + 1
@@ -73,13 +96,13 @@ def doc_cases(ctx, bases):
                     fs = by[lab]
                     pick.extend(rng.sample(fs, min(2, len(fs))))
                 rest = [f for f in ss if f not in pick]
-                pick.extend(rng.sample(rest, min(70 if name == 'full' else 30, len(rest))))
+                pick.extend(rng.sample(rest, min(45 if name == 'full' else 20, len(rest))))
             else:
                 pick = ss
             for f in pick:
                 cases.append({'base': name, 'faults': [f]})
             stats['single_sampled' if quick else 'single_exhaustive'] += len(pick)
-    npairs = 100 if quick else 3000
+    npairs = 60 if quick else 3000
     names = sorted(bases)
     for _ in range(npairs):
         name = rng.choice(names)
@@ -89,12 +112,14 @@ def doc_cases(ctx, bases):
         cases.append({'base': name, 'faults': [a, b]})
         stats['pairs'] += 1
     stats['truncations_exhaustive_bases'] = []
+    smalls = [n_ for n_ in names if n_ not in ('full', 'scopes')]
+    shortest = min(smalls, key=lambda n_: F.serialised_len(bases[n_]))
     for name in names:
         data = F.apply_faults(bases[name], [])
         n = len(data)
         # every byte position of the small bases (quick: the smallest one; all of them: thorough),
         # every position in or next to a multi-byte character of every base, plus a sample
-        exhaustive = name not in ('full', 'scopes') and (not quick or name == 'small_tex')
+        exhaustive = name not in ('full', 'scopes') and (not quick or name == shortest)
         if exhaustive:
             stats['truncations_exhaustive_bases'].append(name)
             positions = set(range(n + 1))
@@ -384,7 +409,7 @@ def run(ctx):
                              'input': {'base': name, 'faults': []}})
     failures += failures_of(dcases, dres)
     failures += failures_of(mcases, mres)
-    scases = site_cases(bases, dcases, dres, 350 if ctx.quick() else 100000)
+    scases = site_cases(bases, dcases, dres, 200 if ctx.quick() else 100000)
     sres = run_sites(scases)
     failures += failures_of(scases, sres)
     header = header_with_bases(dres, dcases)
